@@ -123,6 +123,9 @@ Definition set_segs (d : durable) (segs : list (list wentry)) : durable :=
   mkD segs (d_active d) (d_flushed d) (d_cat d).
 Definition set_flushed (d : durable) (m : N) : durable :=
   mkD (d_segs d) (d_active d) m (d_cat d).
+(* the active segment is closed and a new empty one exists *)
+Definition rotated (d : durable) : durable :=
+  mkD (d_segs d ++ [d_active d]) [] (d_flushed d) (d_cat d).
 Definition add_cat (d : durable) (bs : list sb) : durable :=
   mkD (d_segs d) (d_active d) (d_flushed d) (d_cat d ++ [bs]).
 
@@ -194,7 +197,9 @@ Inductive dlabel :=
 | DTick                       (* an interval tick fires and its time condition holds                  *)
 | DShut                       (* the shutdown token is cancelled                                      *)
 | DRec (f : fault)            (* start ensure_wal on a new process / ensure_wal performs its next step *)
-| DCrash.                     (* the process dies                                                      *)
+| DCrash                      (* the process dies                                                      *)
+| DCrashRot.                  (* the process dies while an append (of a write that is never acknowledged)
+                                 is rotating: a new, still empty segment file is left behind            *)
 
 (* ---------------- ghost: batches that exist only in volatile memory ---------------- *)
 Definition cont_live (k : dcont) : list sb :=
@@ -439,6 +444,11 @@ Definition dstep (c : dcfg) (l : dlabel) (s : dstate) : dstate :=
       | MDown => s
       | _ => mkDs (ds_d s) v_dead MDown (map crash_w (ds_ws s)) QIdle QIdle false (ds_flag s)
       end
+  | DCrashRot =>
+      match ds_mode s with
+      | MDown => s
+      | _ => mkDs (rotated (ds_d s)) v_dead MDown (map crash_w (ds_ws s)) QIdle QIdle false (ds_flag s)
+      end
   end.
 
 Definition drun (c : dcfg) (ls : list dlabel) (s : dstate) : dstate :=
@@ -512,5 +522,5 @@ Definition dmacro (c : dcfg) (fuel : nat) (l : dlabel) (s : dstate) : dstate :=
   | DW i _ => dsettle_w c fuel i (dstep c l s)
   | DT _ | DTick | DShut => dsettle_t c fuel (dstep c l s)
   | DRec _ => dsettle_r c fuel (dstep c l s)
-  | DCrash => dstep c l s
+  | DCrash | DCrashRot => dstep c l s
   end.
